@@ -149,6 +149,15 @@ func describeD(v ssa.Value, d int) string {
 	case *ssa.MakeInterface:
 		return describeD(x.X, d+1)
 	case *ssa.Slice:
+		if a, ok := x.X.(*ssa.Alloc); ok && (a.Comment == "varargs" || a.Comment == "slicelit") && x.Low == nil && x.High == nil {
+			if els, ok := arrayLitElems(a); ok {
+				var ps []string
+				for _, e := range els {
+					ps = append(ps, describeD(e, d+1))
+				}
+				return "[" + strings.Join(ps, ", ") + "]"
+			}
+		}
 		s := describeAddrBase(x.X, d+1) + "["
 		if x.Low != nil {
 			s += describeD(x.Low, d+1)
@@ -1238,6 +1247,75 @@ func errChecked(ci ssa.CallInstruction) bool {
 			// returned directly: `return f()`
 			if _, ok := r.(*ssa.Return); ok {
 				return true
+			}
+		}
+	}
+	return false
+}
+
+
+// arrayLitElems returns the values stored into the elements of a literal
+// array allocation (variadic argument list / slice literal), by index.
+func arrayLitElems(a *ssa.Alloc) ([]ssa.Value, bool) {
+	refs := a.Referrers()
+	if refs == nil {
+		return nil, false
+	}
+	m := map[int64]ssa.Value{}
+	max := int64(-1)
+	for _, r := range *refs {
+		ia, ok := r.(*ssa.IndexAddr)
+		if !ok {
+			continue
+		}
+		idx, ok := constInt(ia.Index)
+		if !ok {
+			return nil, false
+		}
+		if irefs := ia.Referrers(); irefs != nil {
+			for _, u := range *irefs {
+				if st, ok := u.(*ssa.Store); ok && st.Addr == ssa.Value(ia) {
+					m[idx] = st.Val
+					if idx > max {
+						max = idx
+					}
+				}
+			}
+		}
+	}
+	if max < 0 {
+		return nil, false
+	}
+	out := make([]ssa.Value, max+1)
+	for i := range out {
+		v, ok := m[int64(i)]
+		if !ok {
+			return nil, false
+		}
+		out[i] = v
+	}
+	return out, true
+}
+
+// returnsValueOf: some return of fn (outside loops) yields a value that depends on v through phis / the result slot.
+func returnsValueOf(fn *ssa.Function, v ssa.Value) bool {
+	roots := map[ssa.Value]bool{v: true}
+	for _, b := range fn.Blocks {
+		ret, ok := b.Instrs[len(b.Instrs)-1].(*ssa.Return)
+		if !ok || inLoop(b) {
+			continue
+		}
+		for _, r := range ret.Results {
+			if dependsOn(r, roots, 0) {
+				return true
+			}
+			// load of the result slot: look at the last store to it in this block
+			if u, ok := r.(*ssa.UnOp); ok && u.Op == token.MUL {
+				for _, in := range b.Instrs {
+					if st, ok := in.(*ssa.Store); ok && st.Addr == u.X && dependsOn(st.Val, roots, 0) {
+						return true
+					}
+				}
 			}
 		}
 	}
